@@ -4,7 +4,7 @@ From Coq.Strings Require Import Byte.
 Import ListNotations.
 From GA.Base Require Import Bytes Case Align CorrBase.
 From GA.Gen Require Import Alpha IOConst.
-From GA.Model Require Fasta Phylip Nexus.
+From GA.Model Require Fasta Phylip Nexus Clustal.
 From GA.Model Require Import Translate.
 
 Definition brows := list (bs * bs).
@@ -40,6 +40,9 @@ Definition model_ok (c : case) : bool :=
        parser returned *)
     bytes_eqb (unbs (k_written c)) (Nexus.write (Z.eqb (k_inalpha c) AMINOACIDS) rs) &&
     (negb (is_class c "Ok") || rows_eqb (unrows (k_out c)) (Nexus.read (unbs (k_written c))))
+  else if is_cfg c "clustal" then
+    (* the Clustal writer (rows, running residue counts, conservation line) is modelled *)
+    bytes_eqb (unbs (k_written c)) (Clustal.write (k_inalpha c) rs)
   else true.
 
 (* ---- SPEC: representable alignments round-trip ---------------------------------------------- *)
